@@ -344,9 +344,73 @@ func directedIfaceRelDocs(s *gen.Schema) []*gen.Doc {
 		return &gen.Sel{Field: &gen.FieldSel{Name: "relOwner", Def: def, Parent: parent, Sel: leaves()}}
 	}
 	var docs []*gen.Doc
+	// (a) no fragment at all: the field directly on the interface-typed parent
+	{
+		var roots []*gen.Sel
+		for _, rf := range []string{"nodes", "someNode"} {
+			if def := q.Field(rf); def != nil {
+				roots = append(roots, &gen.Sel{Field: &gen.FieldSel{Name: rf, Def: def, Parent: s.Query, Sel: []*gen.Sel{
+					{Field: &gen.FieldSel{Name: "__typename", Parent: "Node"}},
+					rel("Node", node.Field("relOwner")),
+				}}})
+			}
+		}
+		if len(roots) > 0 {
+			docs = append(docs, &gen.Doc{Ops: []*gen.Op{{Kind: "query", Name: "D0", Sel: roots}}})
+		}
+	}
+	// split the leaves of the target into three groups for (c)
+	part := func(k int, parent string, def *gen.Field) *gen.Sel {
+		all := leaves()
+		var mine []*gen.Sel
+		for i, l := range all {
+			if i%3 == k || len(all) < 3 {
+				mine = append(mine, l)
+			}
+		}
+		if len(mine) == 0 {
+			mine = all
+		}
+		return &gen.Sel{Field: &gen.FieldSel{Name: "relOwner", Def: def, Parent: parent, Sel: mine}}
+	}
 	for _, t := range s.Types {
 		if t.Kind != gen.Object || !s.Overlap(t.Name, "Node") || t.Field("relOwner") == nil {
 			continue
+		}
+		// (c) the same object field reached through three type conditions that all apply to T:
+		// the parent itself, `... on Node` and `... on T`, each with other sub-fields
+		{
+			var roots []*gen.Sel
+			for _, rf := range []string{"nodes", "someNode"} {
+				if def := q.Field(rf); def != nil {
+					roots = append(roots, &gen.Sel{Field: &gen.FieldSel{Name: rf, Def: def, Parent: s.Query, Sel: []*gen.Sel{
+						{Field: &gen.FieldSel{Name: "__typename", Parent: "Node"}},
+						part(0, "Node", node.Field("relOwner")),
+						{Inline: &gen.InlineFrag{On: "Node", Parent: "Node", Sel: []*gen.Sel{part(1, "Node", node.Field("relOwner"))}}},
+						{Inline: &gen.InlineFrag{On: t.Name, Parent: "Node", Sel: []*gen.Sel{part(2, t.Name, t.Field("relOwner"))}}},
+					}}})
+				}
+			}
+			if len(roots) > 0 {
+				docs = append(docs, &gen.Doc{Ops: []*gen.Op{{Kind: "query", Name: "D3", Sel: roots}}})
+			}
+		}
+		// (d) the same with a second interface in the middle: parent, `... on Owned`, `... on T`
+		if ow := s.Type("Owned"); ow != nil && s.Overlap(t.Name, "Owned") {
+			var roots []*gen.Sel
+			for _, rf := range []string{"nodes", "someNode"} {
+				if def := q.Field(rf); def != nil {
+					roots = append(roots, &gen.Sel{Field: &gen.FieldSel{Name: rf, Def: def, Parent: s.Query, Sel: []*gen.Sel{
+						{Field: &gen.FieldSel{Name: "__typename", Parent: "Node"}},
+						part(0, "Node", node.Field("relOwner")),
+						{Inline: &gen.InlineFrag{On: "Owned", Parent: "Node", Sel: []*gen.Sel{part(1, "Owned", ow.Field("relOwner"))}}},
+						{Inline: &gen.InlineFrag{On: t.Name, Parent: "Node", Sel: []*gen.Sel{part(2, t.Name, t.Field("relOwner"))}}},
+					}}})
+				}
+			}
+			if len(roots) > 0 {
+				docs = append(docs, &gen.Doc{Ops: []*gen.Op{{Kind: "query", Name: "D4", Sel: roots}}})
+			}
 		}
 		var roots []*gen.Sel
 		for _, rf := range []string{"nodes", "someNode"} {
